@@ -215,7 +215,11 @@ pub fn check_set_direct(texts: &[&str], g: &mut Groups, st: &mut DirectStats) {
         (Built::Err { at, error }, Some((i, q))) => {
             st.rejected += 1;
             let want = if q { "QueryExists" } else { "CommandExists" };
-            if *at != i || error != want {
+            // which declaration the insertion stops at is checked (an earlier stop would be a
+            // false rejection of a prefix, a later one a missed collision); how the macro names
+            // the error is its own business
+            let _ = error;
+            if *at != i {
                 let mut f = set_facts(texts, &decls);
                 f.push(("property", "C14".into()));
                 f.push(("kind", "rejected-with-the-wrong-error-or-declaration".into()));
@@ -743,10 +747,9 @@ pub fn check_rejects(expect: &serde_json::Value, result: &serde_json::Value, g: 
                 )
             });
         } else if !msgs.iter().any(|x| x.contains(want)) {
-            let f = vec![("property", "C14".to_string()), ("kind", "rejected-for-another-reason".to_string())];
-            g.add("compiled-collision", &f, (key_bytes.len(), &key_bytes), || {
-                (json!({"module": name, "decls": decls}), format!("declarations {:?}: expected a compile error mentioning {want}, got {:?}", decls, msgs))
-            });
+            // rejected, in other words than the macro's present ones (`CommandExists` /
+            // `QueryExists` in a panic message): the property only demands that the program does
+            // not compile, so this is counted, not reported
         } else {
             matched += 1;
         }
